@@ -2,6 +2,7 @@
 //   stat S:<mean|var|stddev> S:<kd> A:<arr> <axis: N | I:k | L:..> I:<ddof>
 //   vnorm S:<kd> A:<arr> <axis> I:<ord>          (view::vector_norm)
 //   trace A:<arr>                                (view::trace, default offset/axes, integer data)
+//   u8 S:<sum|prod|cumsum> S:<def|rt1|ct0> A:<arr> <axis> <init>   (uint8 data: accumulation mod 256)
 //   dt S:<sum|prod> S:<f64|i32> S:<kd> A:<arr> <axis> <init>   (explicit result dtype on int64 data)
 // kd: def | rt0 | rt1 | ct0 | ct1.  Results are printed with %.17g and compared with relative tolerance 1e-9.
 #include "nmtools/array/view/mean.hpp"
@@ -11,6 +12,7 @@
 #include "nmtools/array/view/trace.hpp"
 #include "nmtools/array/view/sum.hpp"
 #include "nmtools/array/view/prod.hpp"
+#include "nmtools/array/view/cumsum.hpp"
 #include <optional>
 #include "show.hpp"
 
@@ -91,6 +93,25 @@ static std::string handle(const Case& c) {
         if (dt == "f64") return with_init(nm::float64);
         if (dt == "i32") return with_init(nm::int32);
         return "unsupported";
+    }
+    if (c.op == "u8") {
+        // u8 S:<sum|prod|cumsum> S:<kd> A:<arr> <axis> <init> — uint8 data: the accumulator has the operand's element type,
+        // so every step is reduced mod 256 (unsigned wrap-around is defined behaviour)
+        const std::string fn = c.args[0].raw.substr(2), kd = c.args[1].raw.substr(2);
+        auto a = make_array<dyn_t<unsigned char>>(c.args[2]); const Arg& ax = c.args[3]; const Arg& init = c.args[4];
+        if (fn == "cumsum") return showf(view::cumsum(a, (int)ax.val));
+        auto go = [&](auto ini) -> std::string {
+            auto f = [&](const auto& axis, auto... k) {
+                if constexpr (sizeof...(k) == 0) { if (fn == "sum") return showf(view::sum(a, axis, None, ini)); else return showf(view::prod(a, axis, None, ini)); }
+                else { if (fn == "sum") return showf(view::sum(a, axis, None, ini, k...)); else return showf(view::prod(a, axis, None, ini, k...)); }
+            };
+            if (ax.kind == 'N') { if (kd == "def") return f(None); if (kd == "rt1") return f(None, true); return f(None, False); }
+            if (ax.kind == 'I') { int x = (int)ax.val; if (kd == "def") return f(x); if (kd == "rt1") return f(x, true); return f(x, False); }
+            auto v = vec_of<int>(ax.list);
+            if (kd == "def") return f(v); if (kd == "rt1") return f(v, true); return f(v, False);
+        };
+        if (init.kind == 'N') return go(None);
+        return go((unsigned char)init.val);
     }
     if (c.op == "vnorm") {
         const std::string kd = c.args[0].raw.substr(2);
